@@ -212,6 +212,7 @@ class C08:
         for ui in BIG:
             for n in [0, 1, 4, 5, 2**64 - 1]:
                 add("update %s %s %s %s %s %d %d" % (suite, tb(sk), tb(f["sig"]), tb(f["msgs"][0]), tb(b"new"), ui, n), "fe:update")
+                add("update %s %s %s %s %s %d %d" % (suite, tb(sk), tb(f["sig"]), tb(b"same"), tb(b"same"), ui, n), "fe:update-noop")
         # duplicate / unsorted index lists, mismatching list lengths
         add("proofverify %s %s %s %s %s N N" % (suite, tb(pk), tb(pr), tl([b"a", b"b", b"c"]), ti([0, 0, 2])), "fe:proofverify-dup")
         add("proofverify %s %s %s %s %s N N" % (suite, tb(pk), tb(pr), tl([]), ti([0, 2])), "fe:proofverify-len")
@@ -532,7 +533,8 @@ class C11:
         ids = []
         for s in P.SUITES:
             ids += [(s, pyc.API[s]), (s, pyc.API_BLIND[s]), (s, b"BLIND_" + pyc.API_BLIND[s])]
-        ids += [("sha", b""), ("shake", b"x"), ("sha", P.rb(rng, 40))]
+        shared = P.rb(rng, 24)
+        ids += [("sha", b""), ("shake", b""), ("shake", b"x"), ("sha", b"x"), ("sha", shared), ("shake", shared), ("sha", P.rb(rng, 40))]
         allpts = {}
         p1s = {}
         for s, api in ids:
@@ -547,7 +549,7 @@ class C11:
                 r2 = S.run(["gens %s %d S%s" % (s, k, api.hex())], expect="ok", label="gens-prefix")[0]
                 if r2.b(1) != b"".join(pts[:k]): P.fail(S, "gens-prefix", "first %d generators depend on the count" % k, [api.hex()])
             for q in pts:
-                if q in allpts and allpts[q] != (s, api): P.fail(S, "gens-shared", "generator shared between interface ids", [api.hex(), allpts[q][1].hex()])
+                if q in allpts and allpts[q] != (s, api): P.fail(S, "gens-shared", "generator shared between (suite, interface id) pairs", [s, api.hex(), allpts[q][0], allpts[q][1].hex()])
                 allpts[q] = (s, api)
         # cross (suite, interface) replays
         lines = []; labs = []
@@ -622,5 +624,10 @@ class C12:
                     hist.append(list(cur))
                 for i in (L, L + 1, 2**32, 2**63, 2**64 - 1):
                     S.run(["update %s %s %s %s %s %d %d" % (suite, tb(f["sk"]), tb(f["sig"]), tb(f["msgs"][0]), tb(b"v"), i, L)], expect="err", label="update-oob")
+                    # same, with a no-op value (old = new) and with an empty old value: the position check must not depend on the values
+                    S.run(["update %s %s %s %s %s %d %d" % (suite, tb(f["sk"]), tb(f["sig"]), tb(v0), tb(v0), i, L) for v0 in (f["msgs"][0], b"", b"v")], expect="err", label="update-oob-noop")
+                # an in-range no-op update returns the same signature
+                r0 = S.run(["update %s %s %s %s %s %d %d" % (suite, tb(f["sk"]), tb(f["sig"]), tb(f["msgs"][0]), tb(f["msgs"][0]), 0, L)], expect="ok", label="update-noop")[0]
+                if r0.status == "OK" and r0.b(0) != f["sig"]: P.fail(S, "update-noop", "no-op update changed the signature", [f["sig"].hex()])
                 S.run(["update %s %s %s %s %s %d %d" % (suite, tb(f["sk"]), tb(f["sig"]), tb(f["msgs"][0]), tb(b"v"), 0, n) for n in (0, 2**64 - 1)], expect="err", label="update-bad-n")
         return stats
